@@ -275,6 +275,22 @@ impl Check for C18 {
                 }
             });
         }
+        // (3b) layer opacity sweep: every opacity byte x every content alpha (c = a, and c = a / 2),
+        // SrcOver and Src layers, over a transparent and over a white 1x1 surface
+        run.bound("layer opacity sweep", "256 opacity bytes x 256 content levels (channels equal to alpha; half of it) x layer blend SrcOver / Src / Multiply x transparent / white backdrop on 1x1".to_string());
+        run.par(256, |ob, l| {
+            let opacity = ob as f32 / 255.0;
+            for a in 0..256u32 {
+                for content in [(a << 24) | (a << 16) | (a << 8) | a, (a << 24) | ((a / 2) << 16) | (a << 8) | (a / 3)] {
+                    for blend in [BlendMode::SrcOver, BlendMode::Src, BlendMode::Multiply] {
+                        for dst in [Dst::Zero, Dst::White] {
+                            let scene = Scene { w: 1, h: 1, dst, ops: vec![Op::PushLayer(opacity, blend), Op::FillRect(0., 0., 1., 1., SrcSpec::Solid(content), Opts { mode: BlendMode::Src, alpha: 1.0, aa: true }), Op::PopLayer] };
+                            one(run, 9000 + ob, l, &scene, false);
+                        }
+                    }
+                }
+            }
+        });
         // (4) conversions
         run.bound("conversions", "from_unpremultiplied_argb and From<Color> over 17^4 channel tuples".to_string());
         let ch: Vec<u8> = (0..17).map(|i| (i * 16).min(255) as u8).collect();
